@@ -47,7 +47,19 @@ def _verify_one(args):
         _hp.REVEAL[0] = (".core.heap." in qualname) or (qualname.startswith("lemma:") and
                                                          "C05" in LEMMAS[qualname[6:]].props and
                                                          qualname[6:] not in ("inj_card",))
-        if qualname.startswith("metric:") or qualname == "registry":
+        if qualname.startswith("metricreads:"):
+            # C07's view of a metric: only the obligation that its value never observes uninitialised memory
+            from . import vecexpr
+            from specs.metrics import METRICS
+            out["kind"] = "metric"
+            nm = qualname[12:]
+            obs = [o for o in vecexpr.verify_metric(repo, nm, METRICS[nm], repo.constants) if "/reads/" in o.name]
+            for o in obs:
+                o.name = o.name.replace("metric:", "metricreads:", 1)
+            fname = vecexpr.registry(repo).get(nm)
+            if fname and ("opfython.math.distance." + fname) in repo.functions:
+                out["hash"] = normalized_hash(repo.function("opfython.math.distance." + fname)[0])
+        elif qualname.startswith("metric:") or qualname == "registry":
             from . import vecexpr
             from specs.metrics import METRICS
             out["kind"] = "metric"
@@ -226,7 +238,7 @@ def run(qualnames, timeout_ms=20000, jobs=None, dump=False):
     _ALL = []
     index = []
     # metric / axiom items do their (solver-assisted) generation and their few obligations in one worker each
-    self_contained = [q for q in qualnames if q.startswith(("metric:", "axioms:", "lean:"))]
+    self_contained = [q for q in qualnames if q.startswith(("metric:", "metricreads:", "axioms:", "lean:"))]
     done = {}
     if self_contained:
         ctx0 = mp.get_context("fork")
